@@ -64,6 +64,18 @@ CHECKS = {
   text="Base states = every sequence <= 2 (thorough 3) of native delegate / undelegate / redelegate / set-withdraw-address / block boundary (rewards accrue through coinomics). In each state ~130 precompile calls (staking delegate, undelegate, redelegate, cancelUnbondingDelegation; distribution setWithdrawAddress, withdrawDelegatorRewards, claimRewards; validators valid/unknown/malformed; amounts 0, 1, mid, all, all+1, 2^256-1; creation heights) are executed by the owner as an Ethereum transaction on one branch and as the corresponding Cosmos transaction on another: success/failure must agree and every persistent store must be identical (EVM-side artefacts whitelisted: precompile account record, account-number counter, signer sequence). Read-only staking methods and the bank methods are compared with the modules' own state through the public eth_call entry point.",
   note="Gas price 0. ICS-20, createValidator and withdrawValidatorCommission legs are not in the alphabet. Query outputs are checked for containing the module's figures.",
   design="DESIGN.md §3 C16"),
+ "C05": dict(
+  technique="exhaustive enumeration of a bounded call-tree family, each tree synthesised as EVM bytecode and executed twice through the real DeliverTx (as is / with the failing frames switched off by a storage switch in identical code) with a diff of all persistent stores, logs and supply; plus a model-checked re-entry family",
+  engine="E1",
+  text="All call trees over {root, child (thorough: grandchild)} x endings {STOP, REVERT, INVALID} per frame x child caught/bubbled x attached value x one precompile leaf (staking delegate for signer / for itself, undelegate, approve; distribution setWithdrawAddress, withdrawDelegatorRewards; read-only bank.totalSupply by CALL and STATICCALL, staking.validator by STATICCALL; or none) at every position: 1038 trees (thorough 3198). A = the program; B = same bytecode with the frames that fail in A made to revert at entry. Revert-leaves-no-trace iff A == B on every persistent store, receipt logs and supply, and A == pre-state (but the nonce) when the top frame fails. A second family re-enters one parametric contract up to 2 (thorough 3) times with every combination of slot / value / outcome / attached value and checks final storage and balances against a surviving-calls-only model.",
+  note="Gas price 0. Child frames get a fixed gas allowance so INVALID endings do not starve the parent. ICS-20 leaves are not in the family.",
+  design="DESIGN.md §3 C05"),
+ "C02": dict(
+  technique="exhaustive scenario grid, each scenario synthesised as EVM bytecode and run through the real DeliverTx on a branch, compared with a native replay (bank sends + the module's own message) on a sibling branch; supply invariant on every scenario",
+  engine="E1",
+  text="Grid: topology {EOA->precompile, EOA->contract->precompile, EOA->contract->contract->precompile} x value attached per hop x {staking.delegate for the signer or for the calling contract with amount 1/mid/all/all+1, staking.undelegate, distribution.withdrawDelegatorRewards, claimRewards, setWithdrawAddress} x pre-state {pending rewards, withdraw address elsewhere, no rewards} x journal-dirty set {none, signer, withdrawer} (396 scenarios) plus control scenarios (value chains, failing hop, self-destruct to other / to self). Oracles: total supply unchanged (self-destruct-to-self: exactly -value); bank, staking and distribution stores equal to the native replay; success/failure agree.",
+  note="Gas price 0 (fee flow is C07). Contract callers hold generic staking grants from the signer. Frames that revert are C05's subject.",
+  design="DESIGN.md §3 C02"),
 }
 
 PENDING = {}
